@@ -27,7 +27,13 @@ def sync():
 
 
 def gen_dates(rng, n):
-    mode = rng.choice(["iso", "ages", "ages_ties", "calendar", "calendar_ties"])
+    mode = rng.choice(["iso", "ages", "ages_ties", "calendar", "calendar_ties", "whole_ages", "whole_years"])
+    if mode == "whole_ages":       # whole numbers (the specification may then write them as integers)
+        d = [float(rng.randint(0, 4)) for _ in range(n)]
+        d[rng.randrange(n)] = 0.0
+        return mode, d
+    if mode == "whole_years":
+        return mode, [float(rng.randint(2005, 2012)) for _ in range(n)]
     if mode == "iso":
         return mode, [0.0] * n
     if mode.startswith("ages"):
@@ -65,7 +71,9 @@ def gen_case(rng, i, tier, exhaustive_pool):
     ops = [rng.choice(["cpu", "to"]) for _ in range(rng.choice([0, 0, 1, 2, 3]))]
     # the increments may be written as several parameters joined by a CatParameter (inner nodes + root)
     cat = kind == "shift" and n >= 3 and rng.random() < 0.4
-    return dict(tree=t, n=n, dates=dates, date_mode=mode, kind=kind, B=B, x=x, ops=ops, cat=cat)
+    # whole-number dates written as INTEGERS in the specification ("date": 2012, "date": 0)
+    int_dates = all(float(d).is_integer() for d in dates) and rng.random() < 0.6
+    return dict(tree=t, n=n, dates=dates, date_mode=mode, kind=kind, B=B, x=x, ops=ops, cat=cat, int_dates=int_dates)
 
 
 def build(case):
@@ -74,7 +82,8 @@ def build(case):
     n = case["n"]
     names = [f"t{i}" for i in range(n)]
     taxa = {"id": "taxa", "type": "Taxa", "taxa": [
-        {"id": names[i], "type": "Taxon", "attributes": {"date": case["dates"][i]}} for i in range(n)]}
+        {"id": names[i], "type": "Taxon", "attributes": {"date": int(case["dates"][i]) if case.get("int_dates")
+                                                          else case["dates"][i]}} for i in range(n)]}
     d = {"id": "tree", "type": "ReparameterizedTimeTreeModel", "newick": trees.newick(case["tree"], names),
          "taxa": taxa}
     x = case["x"]
@@ -232,7 +241,7 @@ def run(tier, seed, replay=None):
     undefined = 0
     for (ci, r), flat in zip(index, res):
         c, o = cases[ci], outs[ci]
-        key = f"{c['kind']}{'(cat)' if c.get('cat') else ''}/{c['date_mode']}/n={c['n']}"
+        key = f"{c['kind']}{'(cat)' if c.get('cat') else ''}/{c['date_mode']}{'(int)' if c.get('int_dates') else ''}/n={c['n']}"
         dist[key] = dist.get(key, 0) + 1
         vals = o["nh"][r] + o["bl"][r] + o["xinv"][r]
         mod = [flat[k:k + 3] for k in range(0, len(flat), 3)]
@@ -291,11 +300,49 @@ def run(tier, seed, replay=None):
     for f in hist_found.values():
         rep.violation(*f)
     rep.timings["histories"] = round(time.time() - t0, 2)
+    # ---- the documented option k > 0 of the increment parameterisation (a smooth maximum of the children's heights
+    #      instead of the hard one; the model describes the hard maximum only): judged by the property itself —
+    #      every parent at least as old as each of its children, tips at their sampling times, inverse(forward(x)) = x
+    torch = impl.load()
+    from torchtree.evolution.tree_height_transform import DifferenceNodeHeightTransform
+    srng = random.Random(seed + 29)
+    n_smooth, smooth_found = 0, {}
+    shifts = [c for c, o in zip(cases, outs) if not isinstance(o, Exception) and c["kind"] == "shift" and c["B"] is None]
+    for c in shifts[:(40 if tier == "quick" else 300)]:
+        try:
+            tm = build(dict(c, ops=[]))
+            n = c["n"]
+            tips = [float(v) for v in tm.sampling_times]
+            ed = trees.edges(trees.index_tree(c["tree"]))
+            for k in (srng.choice([0.5, 1.0, 2.0]), srng.choice([5.0, 20.0, 60.0])):
+                tr = DifferenceNodeHeightTransform(tm, k=k)
+                x = torch.tensor([v * srng.choice([1.0, 0.05, 1e-3]) for v in c["x"][0]])
+                y = tr(x)
+                hs = tips + [float(v) for v in y]
+                n_smooth += 1
+                bad = None
+                for pa, ch in ed:
+                    if hs[pa] < hs[ch] - 1e-12 * max(1.0, abs(hs[ch])):
+                        bad = (f"parent {pa} (height {hs[pa]!r}) is younger than its child {ch} (height {hs[ch]!r}) "
+                               f"with k = {k}, increments {x.tolist()}")
+                        break
+                if bad is None:
+                    back = tr.inv(y)
+                    if not torch.allclose(back, x, rtol=1e-9, atol=1e-12):
+                        bad = f"inverse(forward(x)) = {back.tolist()} but x = {x.tolist()} with k = {k}"
+                if bad:
+                    smooth_found.setdefault("C06:smooth-maximum", ("C06:smooth-maximum", bad, dict(case=c, k=k, x=x.tolist())))
+        except Exception as e:  # noqa
+            smooth_found.setdefault(f"C06:smooth-maximum:raises:{type(e).__name__}",
+                                    (f"C06:smooth-maximum:raises:{type(e).__name__}", f"{type(e).__name__}: {str(e)[:160]}",
+                                     dict(case=c)))
+    for f in smooth_found.values():
+        rep.violation(*f)
     rep.rule = ("all rooted binary topologies for 3..4 taxa (quick) / 3..6 taxa (thorough) with random child order, "
                 "plus random/caterpillar/balanced trees up to 12 (30) taxa; dates isochronous / ages / calendar with "
                 "ties; ratio or shift parameterisation; batch [] or [B]; random cpu()/to() prefixes; non-trivial = at "
                 "least 3 taxa; distinct = distinct (case,row)")
-    rep.extra = dict(input_distribution=dist, model_undefined=undefined, exhaustive_topologies=len(pool),
+    rep.extra = dict(input_distribution=dist, smooth_maximum_evaluations=n_smooth, model_undefined=undefined, exhaustive_topologies=len(pool),
                      traces_validated_against_impl=len(index), translator_units=["cpu/cuda/to -> gen/G_kind.v"])
     return rep.finish()
 
